@@ -134,3 +134,35 @@ Proof. vm_compute. reflexivity. Qed.
 Example ex_join_condition_not_tautology :   (* zal1.a = cte1.a is a join condition, not col = col *)
   is_tautology (ast_expr (MBin "=" (MCol "zal1" (mkName "a" eq_refl)) (MCol "cte1" (mkName "a" eq_refl)))) = false.
 Proof. vm_compute. reflexivity. Qed.
+
+(* ---- non-vacuity, statements that carry a query / an expression: the payload is reported from inside a view body,
+   a materialized view body, a partial-index predicate, a column DEFAULT, a table CHECK, an explained query ---- *)
+Definition t1 : mtrefs := TCons (TName (mkT "t1" eq_refl) "") TNil.
+Definition ex_carriers : list mstmt :=
+  [MCreateView (mkT "zs.zv" eq_refl) ["zc1"] (sel1 (OSome p_taut) t1 JNil);
+   MCreateMView (mkT "zmv" eq_refl) [] (MSetOp "UNION" (sel1 ONone t1 JNil) (sel1 (OSome p_sleep) t1 JNil));
+   MCreateIndex (mkT "zi" eq_refl) (mkT "t1" eq_refl) [mkName "zk1" eq_refl] (OSome (MBin "AND" p_sleep p_taut));
+   MCreateTable (mkT "zt" eq_refl)
+     (DCons (mkName "zk1" eq_refl) "INT" (XPlain "NOT NULL" (XDefault (MFunc (mkName "SLEEP" eq_refl) (ECons (MLit "5" "int") ENil)) XNil)) DNil)
+     (YPlain "UNIQUE" ["zk1"] (YCheck p_taut YNil));
+   MExplain (sel1 (OSome p_taut) t1 JNil)].
+Example ex_carriers_low :
+  map (fun s => map fcode (scan_findings em scan_root (Some Low) [ast_stmt s])) ex_carriers = [[3]; [10]; [10; 3]; [10; 3]; [3]]%N.
+Proof. vm_compute. reflexivity. Qed.
+Example ex_carriers_are_roots : forallb (fun s => scan_root (q_kind (ast_stmt s))) ex_carriers = true.
+Proof. vm_compute. reflexivity. Qed.
+
+(* ---- non-vacuity, depth: a flat chain p OR c = 7 OR c = 7 ... of 300 operands is a tree 300 levels deep; the payload
+   is its FIRST operand (the deepest node): reported by its own node and by the OR node above it ---- *)
+Fixpoint or_chain (n : nat) (first : mexpr) : mexpr :=
+  match n with
+  | O => first
+  | S k => MBin "OR" (or_chain k first) (MBin "=" (MCol "" (mkName "c" eq_refl)) (MLit "7" "int"))
+  end.
+Example ex_chain_300 :
+  map fcode (scan_findings em scan_root (Some Critical) [ast_stmt (sel1 (OSome (or_chain 300 p_taut)) t1 JNil)]) = [3; 3]%N.
+Proof. vm_compute. reflexivity. Qed.
+Example ex_chain_300_in_view :
+  map fcode (scan_findings em scan_root (Some Low)
+               [ast_stmt (MCreateView (mkT "zv" eq_refl) [] (sel1 (OSome (or_chain 300 p_sleep)) t1 JNil))]) = [10]%N.
+Proof. vm_compute. reflexivity. Qed.
